@@ -9,7 +9,16 @@ SIGNED = ["i8", "i16", "i32", "i64", "i128", "isize"]
 
 def run_all(chk, fsets, tier):
     import facts
-    F = facts.load(fsets[0])
+    for i, fs in enumerate(fsets):
+        run_fs(chk, facts.load(fs), "" if fs == "default" else "@" + fs, i == 0)
+    chk.assume("pointer-size types are analysed at the width of this target (64 bits); a 32-bit target instantiates the same generic body at the width covered by i32/u32")
+    chk.trust("rustc MIR construction and the mirx exporter")
+    chk.trust("contracts of the dependency common_traits: to_signed/to_unsigned reinterpret the same bits, ONE = 1, BITS = width")
+    chk.trust("transfer functions of sa/ivl.py (modular affine forms, interval bounds)")
+
+
+def run_fs(chk, F, sfx, first):
+    """the rules on one feature set (code under cfg(feature = ...) is part of the mapping of that build)"""
     chk.rule("Z1.impls", floor=12, doc="ToNat is implemented for i8..i128 and isize, ToInt for u8..u128 and usize; the body analysed for a type is the one that type uses (its own override if it has one, else the trait's default body)")
     bodies = {}
     for tr, nm, tys in (("codes::ToNat", "to_nat", SIGNED), ("codes::ToInt", "to_int", ["u" + t[1:] for t in SIGNED])):
@@ -19,7 +28,7 @@ def run_all(chk, fsets, tier):
             own = [b for b in F.find(name=nm) if b["kind"] == "AssocFn" and (b.get("impl_trait_def") or b.get("impl_trait") or "").startswith(tr) and b.get("impl_self") == t]
             body = own[0] if len(own) == 1 else default[0] if (not own and len(default) == 1) else None
             bodies[(nm, t)] = body
-            chk.expect("Z1.impls", "%s for %s" % (tr, t), t in have and body is not None,
+            chk.expect("Z1.impls", "%s for %s%s" % (tr, t, sfx), t in have and body is not None,
                        "%s is not implemented for %s, or its %s body cannot be identified (implementors: %s)" % (tr, t, nm, have),
                        sample={"trait": tr, "type": t, "body": body["path"] if body else None})
     chk.rule("Z2.formula", floor=24, doc="abstract interpretation of the generic body with Self := each width, the argument ranging over a whole sign (to_nat) or parity (to_int) class: the result is EXACTLY the affine map 2x | -2x-1 | u/2 | -(u+1)/2 in the result type, with no wrap-around on any value of the class")
@@ -34,7 +43,7 @@ def run_all(chk, fsets, tier):
             continue
         for cls, lo, hi, body, ty, a, b, want in (("nonneg", 0, M, tn, st, 1, 0, (2, 0)), ("neg", -M - 1, -1, tn, st, 1, 0, (-2, -1)),
                                                   ("even", 0, M, ti, ut, 2, 0, (1, 0)), ("odd", 0, M, ti, ut, 2, 1, (-1, -1))):
-            key = "%s.%s" % (ty, cls)
+            key = "%s.%s%s" % (ty, cls, sfx)
             it = ivl.Interp(F, lo, hi)
             try:
                 r = it.call_body(body, [it.input(ty, a, b)], {"Self": ty})
@@ -50,7 +59,7 @@ def run_all(chk, fsets, tier):
             if exact:
                 got[cls] = r
         if len(got) != 4:
-            chk.bad("Z3.inverse", st, "maps of width %d not all derived" % w)
+            chk.bad("Z3.inverse", st + sfx, "maps of width %d not all derived" % w)
             continue
         # to_int(to_nat(x)) = x
         for cls in ("nonneg", "neg"):
@@ -64,7 +73,7 @@ def run_all(chk, fsets, tier):
             xs = (0, M) if cls == "nonneg" else (-M - 1, -1)
             ys = sorted((ya * xs[0] + yb, ya * xs[1] + yb))
             comp = (g.aff[0] * ya, g.aff[0] * yb + g.aff[1])
-            chk.expect("Z3.inverse", "%s.to_int(to_nat).%s" % (st, cls), okc and ys[0] >= 0 and ys[1] <= M and comp == (1, 0),
+            chk.expect("Z3.inverse", "%s.to_int(to_nat).%s%s" % (st, cls, sfx), okc and ys[0] >= 0 and ys[1] <= M and comp == (1, 0),
                        "to_int(to_nat(x)) on the %s values of %s is the map %s*x + %s, not the identity" % (cls, st, comp[0], comp[1]), sample={"type": st, "class": cls, "composition": comp})
         # to_nat(to_int(u)) = u, u = 2y + par
         for cls, par in (("even", 0), ("odd", 1)):
@@ -76,9 +85,5 @@ def run_all(chk, fsets, tier):
                 f = got[tgt]
                 comp = (f.aff[0] * g.aff[0], f.aff[0] * g.aff[1] + f.aff[1])
                 ok = comp == (2, par)
-            chk.expect("Z3.inverse", "%s.to_nat(to_int).%s" % (ut, cls), ok,
+            chk.expect("Z3.inverse", "%s.to_nat(to_int).%s%s" % (ut, cls, sfx), ok,
                        "to_nat(to_int(u)) on the %s values of %s is %s in y (u = 2y+%d), not u itself" % (cls, ut, comp, par), sample={"type": ut, "class": cls, "composition": comp})
-    chk.assume("pointer-size types are analysed at the width of this target (64 bits); a 32-bit target instantiates the same generic body at the width covered by i32/u32")
-    chk.trust("rustc MIR construction and the mirx exporter")
-    chk.trust("contracts of the dependency common_traits: to_signed/to_unsigned reinterpret the same bits, ONE = 1, BITS = width")
-    chk.trust("transfer functions of sa/ivl.py (modular affine forms, interval bounds)")
